@@ -5,8 +5,9 @@
    getpos() points when the callback fires is the standard library's business; [updatepos] mirrors
    its bookkeeping so that "positions do not drift" is a theorem about that bookkeeping, and the
    harness compares it with the recorded token slices. *)
-From Coq Require Import List NArith Arith Bool.
-From BS Require Import Base.Sexp Model.Build Model.Adapter Model.Pos Proofs.PosProofs.
+From Coq Require Import List NArith Arith Bool Sorted.
+From BS Require Import Base.Sexp Base.Reader Gen.T_C18 Model.Build Model.Adapter Model.Pos Model.Tokenizer Model.TokenizerPins
+                       Model.TokParse Proofs.PosProofs Proofs.TokenizerProofs Proofs.TokenizerCompose.
 Import ListNotations.
 Open Scope N_scope.
 
@@ -67,6 +68,104 @@ Theorem C18_positions_true : forall cfg (toks : list ptoken),
   adapter_run cfg [] (fire (map (true_pos text) (offsets 0 slices)) toks).
 Proof. exact positions_true. Qed.
 Print Assumptions C18_positions_true.
+
+(* ================= the tokenizer (Model/Tokenizer.v: the installed html/parser.py + _markupbase.py) =================
+   [tokenize unesc text] = (items, final state): one item per slice the tokenizer consumes (updatepos(i, j), i < j),
+   with the offset i, the getpos() its callbacks see, the slice and the callbacks.  [unesc] stands for html.unescape
+   (attribute values); every statement holds for every function in its place.  All texts, no size bound. *)
+
+(* ---- the model was written for the patterns / methods / tables of the interpreter that runs the check ---- *)
+Theorem C18_tok_patterns_pinned : tok_pattern_pins = pinned_patterns.
+Proof. reflexivity. Qed.
+Print Assumptions C18_tok_patterns_pinned.
+Theorem C18_tok_sources_pinned : tok_source_pins = pinned_sources.
+Proof. reflexivity. Qed.
+Print Assumptions C18_tok_sources_pinned.
+Theorem C18_tok_measured_tables :
+  re_space_measured = space_cps /\ ci_measured = ci_extra /\ cdata_elems_measured = cdata_content_elements.
+Proof. repeat split; reflexivity. Qed.
+Print Assumptions C18_tok_measured_tables.
+
+(* ---- no loss: the consumed slices are non-empty, consecutive from offset 0, and with the unconsumed rest they are
+   the text; nothing is dropped, nothing is reported twice ---- *)
+Theorem C18_tok_covers : forall unesc text its g, tokenize unesc text = (its, g) ->
+  concat (map it_span its) ++ gs_rest g = text /\
+  map it_off its = offsets 0 (map it_span its) /\
+  Forall (fun it => it_span it <> []) its /\
+  StronglySorted lt (map it_off its).
+Proof. exact tok_covers. Qed.
+Print Assumptions C18_tok_covers.
+
+(* ... and the rest is empty unless a script / style element is still open at the end of the text *)
+Theorem C18_tok_leftover : forall unesc text its g, tokenize unesc text = (its, g) ->
+  gs_status g = Running -> gs_rest g = [] \/ gs_cd g <> None.
+Proof. exact tokenize_leftover. Qed.
+Print Assumptions C18_tok_leftover.
+
+(* ---- termination: fuel = length + 1 per goahead call suffices, and every loop iteration advances; the run ends
+   normally or with the AssertionError the Python code raises ---- *)
+Theorem C18_tok_terminates : forall unesc text its g, tokenize unesc text = (its, g) ->
+  gs_status g = Running \/ gs_status g = Rejected.
+Proof. exact tokenize_total. Qed.
+Print Assumptions C18_tok_terminates.
+
+(* ... and it raises (html.parser's AssertionError, which HTMLParserTreeBuilder.feed turns into ParserRejectedMarkup)
+   only for a text that contains the opening of a marked section, "<![" *)
+Theorem C18_tok_rejects_only_marked_sections : forall unesc text its g, tokenize unesc text = (its, g) ->
+  gs_status g = Rejected -> exists pre post, text = pre ++ 60 :: 33 :: 91 :: post.
+Proof. exact tokenize_rejected. Qed.
+Print Assumptions C18_tok_rejects_only_marked_sections.
+
+(* ---- positions: the model accumulates updatepos slice by slice as _markupbase does ... ---- *)
+Theorem C18_tok_pos_accumulated : forall unesc text its g, tokenize unesc text = (its, g) ->
+  map it_pos its = running start_pos (map it_span its).
+Proof. exact tok_pos_accumulated. Qed.
+Print Assumptions C18_tok_pos_accumulated.
+(* ... and what every callback sees as getpos() is the line / column of its slice's offset in the text *)
+Theorem C18_tok_pos_true : forall unesc text its g, tokenize unesc text = (its, g) ->
+  map it_pos its = map (true_pos text) (map it_off its).
+Proof. exact tok_pos_true. Qed.
+Print Assumptions C18_tok_pos_true.
+
+(* ---- start tags: a start-tag callback is fired only for a slice that begins with '<' and a letter, under the
+   lower-cased maximal run of name characters that follows the '<' ---- *)
+Theorem C18_tok_start_at : forall unesc text its g, tokenize unesc text = (its, g) ->
+  Forall (fun it => forall e n, In e (it_evs it) -> ev_start_name e = Some n ->
+                    start_at (skipn (it_off it) text) n) its.
+Proof. exact tokenize_starts. Qed.
+Print Assumptions C18_tok_start_at.
+Theorem C18_tok_start_text : forall r n, start_at r n ->
+  exists nm rest, r = 60 :: nm ++ rest /\ n = ascii_lower nm /\ forallb name_char nm = true /\
+                  (exists d nm', nm = d :: nm' /\ is_alpha d = true) /\
+                  match rest with [] => True | c :: _ => name_char c = false end.
+Proof. exact start_at_text. Qed.
+Print Assumptions C18_tok_start_text.
+
+(* ---- every callback the tokenizer fires returns (numeric references are in int()'s grammar) ---- *)
+Theorem C18_tok_callbacks_return : forall unesc text, callbacks_return (callbacks unesc text) = true.
+Proof. exact tokenize_callbacks_return. Qed.
+Print Assumptions C18_tok_callbacks_return.
+
+(* ---- C18 at the level of the text, for EVERY text and configuration: run the tokenizer model and hand its callbacks
+   to the adapter; every callback returns; the tags created carry, in order, exactly (name, line / column of the
+   offset of the start tag's '<') — or None with store_line_numbers=False —; at each of those offsets the text has
+   '<' followed by the name (up to ASCII case); and the offsets strictly increase. ---- *)
+Theorem C18_string_level : forall unesc cfg text,
+  let its := fst (tokenize unesc text) in
+  exists o ac', adapter_run cfg [] (hevs_of_items its) = (o, ac', true) /\
+  tag_positions o =
+    map (fun no => (fst no, if a_store cfg then Some (true_pos text (snd no)) else None)) (tok_starts its) /\
+  (forall n off, In (n, off) (tok_starts its) ->
+     nth_error text off = Some 60 /\ start_at (skipn off text) n) /\
+  StronglySorted lt (map snd (tok_starts its)).
+Proof. exact string_level. Qed.
+Print Assumptions C18_string_level.
+
+Example C18_tok_example :
+  map (fun it => (it_off it, it_pos it, it_evs it))
+      (fst (tokenize (fun v => v) [60; 97; 62; 10; 10; 32; 60; 66; 47; 62])) =
+  [(0%nat, (1, 0), [TStart [97] []]); (3%nat, (1, 3), [TData [10; 10; 32]]); (6%nat, (3, 1), [TStartEnd [98] []])].
+Proof. vm_compute. reflexivity. Qed.
 
 Example C18_example :
   true_pos [60; 97; 62; 10; 10; 32; 60; 98; 62] 6 = (3, 1).
